@@ -48,8 +48,21 @@ pub fn pi_ops() -> Vec<String> {
             }
             v.push(format!("pi.{t}.{p}"));
         }
+        // exposure of a value that went through in-circuit computation (representations that
+        // are not freshly assigned), and of a big integer under a looser declared width
+        if matches!(*t, "k256p" | "k256q" | "blsp" | "jjpoint" | "k256point" | "blspoint" | "biguint") {
+            v.push(format!("pi.{t}.computed"));
+        }
+        if *t == "biguint" {
+            v.push(format!("pi.{t}.looser"));
+        }
     }
     v
+}
+
+thread_local! {
+    /// width the circuit derived for a computed big integer (set during synthesis)
+    static DERIVED_NB: std::cell::Cell<u32> = const { std::cell::Cell::new(0) };
 }
 
 pub fn arch(c: &OpCase) -> ZkStdLibArch {
@@ -102,6 +115,9 @@ pub fn gen_case(rng: &mut Prng, op: &str) -> OpCase {
             p.push(nb as u64);
             let top = BigUint::one() << nb;
             bins = vec![class(rng, &top)];
+            if op.ends_with(".looser") {
+                p.push(nb as u64 + *rng.pick(&[1u64, 8, 32, 64, 96, 100]));
+            }
         }
         // field elements, and points / scalars given by a discrete logarithm (0 = identity)
         _ => bins = vec![class(rng, &m)],
@@ -126,7 +142,16 @@ fn jj_scalar(k: &BigUint) -> JubjubFr {
 /// The off-circuit encoding `T::as_public_input(v)` of the case's value.
 pub fn off_circuit(c: &OpCase) -> Vec<Fq> {
     let t = c.op.split('.').nth(1).unwrap();
-    let k = |i: usize| c.bin(i);
+    // the computed path exposes the negation (the big integer: the value itself)
+    let negated = c.op.ends_with(".computed") && t != "biguint";
+    let k = |i: usize| {
+        if negated {
+            let m = modulus(t);
+            (&m - c.bin(i) % &m) % &m
+        } else {
+            c.bin(i)
+        }
+    };
     match t {
         "bit" => <AssignedBit<F> as Instantiable<F>>::as_public_input(&(c.ins[0].0 != Fq::ZERO)),
         "byte" => <AssignedByte<F> as Instantiable<F>>::as_public_input(&c.ins[0].0.to_bytes_le()[0]),
@@ -138,6 +163,9 @@ pub fn off_circuit(c: &OpCase) -> Vec<Fq> {
         "jjscalar" => <AssignedScalarOfNativeCurve<JJ> as Instantiable<F>>::as_public_input(&jj_scalar(&k(0))),
         "k256point" => <AssignedForeignPoint<F, K256, MEP> as Instantiable<F>>::as_public_input(&(K256::generator() * k256::Fq::from_biguint(&k(0)).unwrap())),
         "blspoint" => <AssignedForeignPoint<F, G1Projective, MEP> as Instantiable<F>>::as_public_input(&(G1Projective::generator() * big_to_fq(&k(0)))),
+        "biguint" if c.op.ends_with(".looser") => AssignedBigUint::<F>::as_public_input(&k(0), c.p[1] as u32),
+        // (computed: the value is a + a - a, the width is the one the circuit derived)
+        "biguint" if c.op.ends_with(".computed") => AssignedBigUint::<F>::as_public_input(&k(0), DERIVED_NB.with(|d| d.get())),
         "biguint" => AssignedBigUint::<F>::as_public_input(&k(0), c.p[0] as u32),
         o => panic!("unknown pi type {o}"),
     }
@@ -174,6 +202,62 @@ pub fn body<L: Layouter<F>>(c: &OpCase, s: &ZkStdLib, l: &mut L, w: &[Value<F>],
                 let x: AssignedNative<F> = s.assign(l, w[0])?;
                 s.constrain_as_committed_public_input(l, &x)?
             }
+        }
+        return Ok(());
+    }
+    if path == "computed" || path == "looser" {
+        macro_rules! ff_computed {
+            ($chip:expr, $K:ty) => {{
+                let chip = $chip;
+                let x: AssignedField<F, $K, MEP> = chip.assign(l, wb[0].clone().map(|b| <$K>::from_biguint(&b).unwrap()))?;
+                // -x: limbs produced by a linear combination, not by a fresh assignment
+                let y = chip.neg(l, &x)?;
+                chip.constrain_as_public_input(l, &y)?
+            }};
+        }
+        macro_rules! point_computed {
+            ($chip:expr, $val:expr, $ty:ty) => {{
+                let chip = $chip;
+                let p: $ty = chip.assign(l, $val)?;
+                if c.bin(0).is_zero() {
+                    // the identity has no affine coordinates: exposed as assigned
+                    chip.constrain_as_public_input(l, &p)?
+                } else {
+                    let bf = chip.base_field_chip();
+                    let x = chip.x_coordinate(&p);
+                    let y = chip.y_coordinate(&p);
+                    // -P built from its coordinates
+                    let y1 = bf.neg(l, &y)?;
+                    let q = chip.point_from_coordinates(l, &x, &y1)?;
+                    chip.constrain_as_public_input(l, &q)?
+                }
+            }};
+        }
+        match t {
+            "k256q" => ff_computed!(s.secp256k1_scalar(), k256::Fq),
+            "k256p" => ff_computed!(s.secp256k1_curve().base_field_chip(), k256::Fp),
+            "blsp" => ff_computed!(s.bls12_381_curve().base_field_chip(), BlsFp),
+            "jjpoint" => {
+                let chip = s.jubjub();
+                let p: AssignedNativePoint<JJ> = chip.assign(l, wb[0].clone().map(|b| JubjubSubgroup::generator() * jj_scalar(&b)))?;
+                let q = chip.negate(l, &p)?;
+                chip.constrain_as_public_input(l, &q)?
+            }
+            "k256point" => point_computed!(s.secp256k1_curve(), wb[0].clone().map(|b| K256::generator() * k256::Fq::from_biguint(&b).unwrap()), AssignedForeignPoint<F, K256, MEP>),
+            "blspoint" => point_computed!(s.bls12_381_curve(), wb[0].clone().map(|b| G1Projective::generator() * big_to_fq(&b)), AssignedForeignPoint<F, G1Projective, MEP>),
+            "biguint" => {
+                let g = s.biguint();
+                let x = g.assign_biguint(l, wb[0].clone(), c.p[0] as u32)?;
+                if path == "looser" {
+                    g.constrain_as_public_input(l, &x, c.p[1] as u32)?
+                } else {
+                    let d = g.add(l, &x, &x)?;
+                    let y = g.sub(l, &d, &x)?;
+                    DERIVED_NB.with(|n| n.set(y.nb_bits()));
+                    g.constrain_as_public_input(l, &y, y.nb_bits())?
+                }
+            }
+            o => panic!("unknown computed pi type {o}"),
         }
         return Ok(());
     }
